@@ -15,7 +15,7 @@ import itertools
 import operator
 import pickle
 
-from traits.api import HasTraits, Any, CInt, Dict, Instance, TraitError
+from traits.api import HasTraits, Any, CInt, Dict, Instance, Int, TraitError
 from traits.trait_dict_object import TraitDict
 from traits.observation import api as obs_api
 
@@ -23,7 +23,10 @@ META = {
     "level": "exploration",
     "rule": ("cases = (dict flavour, start state, operation) with flavours: bare TraitDict "
              "without validators / with rejecting validators / with coercing key (str.lower, "
-             "int->str) and value validators, and the TraitDictObject of a Dict(CInt, Instance) "
+             "int->str) and value validators / with a type-strict key validator (type(k) is int) "
+             "over keys 1, 1.0, True, 2, 2.0, 0, False / with a deterministic non-idempotent key "
+             "validator (int k -> k+1, str -> str+'_') whose raw keys equal stored ones, and the "
+             "TraitDictObject of a Dict(CInt, Instance) and of a Dict(Int, Instance) "
              "trait; operations __setitem__, __delitem__, pop with/without default, popitem, "
              "clear, setdefault with/without value, update and |= with a mapping, a list or "
              "generator of pairs (duplicate and colliding keys, an invalid key/value at each "
@@ -33,7 +36,9 @@ META = {
              "notifiers; and, for the bare flavours, dicts nobody listens to (built without "
              "notifiers, or obtained by copy.copy / copy.deepcopy / pickle protocol 0..5, which "
              "drop the notifiers and keep the validators), judged on contents, return value, "
-             "exception class and failure atomicity only. "
+             "exception class and failure atomicity only; every copy (those, d.copy(), copies "
+             "of a TraitDictObject) is kept next to its watched original and either one is "
+             "changed: the other must receive no notification and keep its contents. "
              "Exhaustive over all start dicts of size 0..3 x all single operations of "
              "that grid, plus random 20-op histories in three strata (plain, setdefault through "
              "a coercing key validator, raw notifier after an observer), 40% of the bare ones "
@@ -50,22 +55,35 @@ META = {
                   # dicts nobody listens to (never had a notifier, or a fresh copy)
                   "silent_evaluations": 75000, "silent_failures_checked": 30000,
                   "silent_bulk_rejections_checked": 20000, "copies_continued": 30000,
-                  "ops_on_copies": 45000, "exhaustive_silent_cases": 60000},
+                  "ops_on_copies": 45000, "exhaustive_silent_cases": 60000,
+                  # type-strict / non-idempotent key validators, equal keys of other types
+                  "evaluations_strict": 30000, "evaluations_shift": 70000,
+                  "evaluations_tdi": 20000,
+                  # a copy next to its original: neither hears of nor changes with the other
+                  "isolation_checks": 70000, "isolation_checks_copy_mutated": 60000,
+                  "isolation_checks_original_mutated": 10000, "side_mutations": 5500},
         "thorough": {"evaluations": 2000000, "events_checked": 1000000, "failures_checked": 500000,
                      "observer_events_checked": 800000, "history_ops": 1800000,
                      "raw_pairs_compared": 1400000, "raw_after_observer_compared": 250000,
                      "exhaustive_cases": 150000,
-                     "silent_evaluations": 500000, "silent_failures_checked": 130000,
-                     "silent_bulk_rejections_checked": 55000, "copies_continued": 65000,
-                     "ops_on_copies": 450000, "exhaustive_silent_cases": 60000},
+                     "silent_evaluations": 450000, "silent_failures_checked": 130000,
+                     "silent_bulk_rejections_checked": 55000, "copies_continued": 60000,
+                     "ops_on_copies": 300000, "exhaustive_silent_cases": 60000,
+                     "evaluations_strict": 400000, "evaluations_shift": 500000,
+                     "evaluations_tdi": 190000,
+                     "isolation_checks": 700000, "isolation_checks_copy_mutated": 450000,
+                     "isolation_checks_original_mutated": 250000, "side_mutations": 140000},
     },
     "exhaustive_parts": "all single operations of the grid in `rule` on every start dict of size "
                         "0..3 over the validated key universe of each flavour",
     "assumptions": ["built-in dict is the sequential specification (including insertion order)",
                     "values are compared by identity, keys by type and equality; validators are "
                     "pure functions",
-                    "lookups (del, pop, the membership test of the event law) use the raw key; "
-                    "only keys/values that are stored are validated"],
+                    "lookups (del, pop, setdefault on a raw key that is present, the membership "
+                    "test of the event law) use the raw key; only keys/values that are stored "
+                    "are validated",
+                    "an event delivered to a listener of dict D is a delta of D: a listener of "
+                    "one dict hears nothing about changes made to a copy of it"],
 }
 
 
@@ -96,7 +114,14 @@ KEYS = {
     "reject": ['a', 'b', 'c', 'A', 1, 1.0, (1, 2), BADK],
     "coerce": ['a', 'A', 'b', 'B', 'c', 1, '1', BADK],
     "tdo": [1, '1', 2, '2', 3, 1.0, True, 'x'],
+    # equal-but-distinct keys of different types against a type-strict validator
+    "strict": [1, 1.0, True, 2, 2.0, 0, False, 'a'],
+    "tdi": [1, 1.0, True, 2, 2.0, 3, '1', 'x'],
+    # a deterministic validator that is not idempotent: raw keys equal stored ones
+    "shift": [0, 1, 2, 'a', 'a_', 1.0, True, BADK],
 }
+HT = ("tdo", "tdi")                 # flavours living in a HasTraits Dict trait
+NONIDEMPOTENT = ("shift",)
 
 
 # -- reference validators (the bare flavours hand the same functions to TraitDict) --
@@ -127,6 +152,29 @@ def kv_tdo(k):
         raise TraitError("bad key")
 
 
+def kv_strict(k):
+    if type(k) is int:
+        return k
+    raise TraitError("bad key")
+
+
+def kv_shift(k):
+    if type(k) is int:
+        return k + 1
+    if type(k) is str and k != BADK:
+        return k + "_"
+    raise TraitError("bad key")
+
+
+def kv_tdi(k):
+    if type(k) is int:
+        return k
+    try:
+        return int(operator.index(k))
+    except TypeError:
+        raise TraitError("bad key")
+
+
 def vv_none(v):
     return v
 
@@ -151,12 +199,15 @@ def vv_tdo(v):
     raise TraitError("bad value")
 
 
-KV = {"none": kv_none, "reject": kv_reject, "coerce": kv_coerce, "tdo": kv_tdo}
-VV = {"none": vv_none, "reject": vv_reject, "coerce": vv_coerce, "tdo": vv_tdo}
+KV = {"none": kv_none, "reject": kv_reject, "coerce": kv_coerce, "tdo": kv_tdo,
+      "strict": kv_strict, "shift": kv_shift, "tdi": kv_tdi}
+VV = {"none": vv_none, "reject": vv_reject, "coerce": vv_coerce, "tdo": vv_tdo,
+      "strict": vv_reject, "shift": vv_reject, "tdi": vv_tdo}
 
 
 class Holder(HasTraits):
     d = Dict(CInt, Instance(V))
+    di = Dict(Int, Instance(V))
 
 
 class Box(HasTraits):
@@ -208,7 +259,7 @@ class Env:
 
         pre = False
         if silent or td is not None:
-            assert flavour != "tdo" and not n_obs
+            assert flavour not in HT and not n_obs
             if td is None:
                 kw = {}
                 if flavour != "none":
@@ -224,6 +275,10 @@ class Env:
             self.root = Holder(d=dict(pairs))
             self.td = self.root.d
             path = "d.items"
+        elif flavour == "tdi":
+            self.root = Holder(di=dict(pairs))
+            self.td = self.root.di
+            path = "di.items"
         else:
             kw = {}
             if flavour != "none":
@@ -244,7 +299,7 @@ class Env:
             obs_objs.extend(n for n in self.td.notifiers if id(n) not in known)
         ns = self.td.notifiers
         obs_idx = [i for i, n in enumerate(ns) if any(n is o for o in obs_objs)]
-        self.has_raw2 = n_obs > 0 or flavour == "tdo"
+        self.has_raw2 = n_obs > 0 or flavour in HT
         self.after_observer = False
         if self.has_raw2:
             if not obs_idx or slot == "first":
@@ -503,6 +558,15 @@ def check_one(ctx, env, model, op):
                 lenient = model[vk]
         except TypeError:
             pass
+    # setdefault with a raw key that is present is a lookup (like pop / del, it
+    # uses the raw key and stores nothing): returning that item is accepted
+    lookup_hit = NOTSET
+    if op[0] == "setdefault" and op[1] is not UNHASH:
+        try:
+            if op[1] in model:
+                lookup_hit = model[op[1]]
+        except TypeError:
+            pass
     # an unhashable lookup key: TypeError is always right (the built-in skips
     # hashing when the dict is empty, a CPython shortcut that is not demanded)
     unhashable_lookup = op[0] in ("pop", "popd", "delitem", "setdefault") and op[1] is UNHASH
@@ -530,7 +594,9 @@ def check_one(ctx, env, model, op):
     unchanged_order = items_same_ordered(after, before)
 
     complaint = None
-    if lenient is not NOTSET:
+    if lookup_hit is not NOTSET and rr[0] == "ok" and rr[1] is lookup_hit and unchanged_order:
+        ctx.count("setdefault_raw_lookups")
+    elif lenient is not NOTSET:
         if rr[0] == "ok":
             if not unchanged_order:
                 complaint = "changed-by-invalid-default"
@@ -571,6 +637,7 @@ def check_one(ctx, env, model, op):
             model.clear()
             model.update(m2)
     ctx.ev()
+    ctx.count("evaluations_" + flavour)
     if rr[0] == "exc":
         ctx.count("failures_checked")
 
@@ -585,8 +652,6 @@ def check_one(ctx, env, model, op):
             ctx.count("silent_failures_checked")
             if bad and len(ks) > 1:
                 ctx.count("silent_bulk_rejections_checked")
-        if env.td.notifiers and complaint is None:
-            complaint = "notifier-appeared-on-silent-dict"
     if env.copied:
         ctx.count("ops_on_copies")
     if complaint is None and not env.silent:
@@ -658,7 +723,7 @@ def check_one(ctx, env, model, op):
 
 
 # -- copies -------------------------------------------------------------------------
-COPY_MODES = [("copy", None), ("deepcopy", None)] + \
+COPY_MODES = [("copy", None), ("deepcopy", None), ("method", None)] + \
              [("pickle", p) for p in range(pickle.HIGHEST_PROTOCOL + 1)]
 
 
@@ -667,15 +732,21 @@ def do_copy(td, mode, proto):
         return copy.copy(td)
     if mode == "deepcopy":
         return copy.deepcopy(td)
+    if mode == "method":
+        return td.copy()
     return pickle.loads(pickle.dumps(td, proto))
 
 
-def continue_on_copy(ctx, env, model, mode, proto, silent):
-    """Copy env.td and return (Env, model) for the copy, or None when the copy
-    cannot serve as the main object.  The property says nothing about copying, so
-    nothing is judged here: an unusable copy is counted, not reported.  Copies
-    drop the transient notifiers and keep the validators, so a copy is the other
-    way (besides never attaching one) to get a validating dict nobody listens to."""
+def take_copy(ctx, env, model, mode, proto, silent):
+    """Copy env.td.  Returns ("twin", Env, model) when the copy is a validating
+    TraitDict equal to the original (bare flavours: it is then driven and judged like
+    the original; copies drop the transient notifiers and keep the validators, so
+    this is the other way to get a validating dict nobody listens to), ("side", obj,
+    None) for any other dict (d.copy(), a detached TraitDictObject copy, a copy whose
+    keys went through a non-idempotent validator again), None when copying failed.
+    The property says nothing about what a copy must look like, so none of this is
+    judged; what is judged afterwards is that the events delivered for one dict are
+    deltas of that dict: a change to either object must leave the other one alone."""
     flavour = env.flavour
     ctx.count("copies_taken")
     try:
@@ -683,7 +754,10 @@ def continue_on_copy(ctx, env, model, mode, proto, silent):
     except Exception:
         ctx.count("copies_unusable")
         return None
-    ok = type(c) is TraitDict and c is not env.td and not c.notifiers
+    if not isinstance(c, dict) or c is env.td:
+        ctx.count("copies_unusable")
+        return None
+    ok = type(c) is TraitDict and flavour not in HT
     if ok and flavour != "none":
         ok = c.key_validator is KV[flavour] and c.value_validator is VV[flavour]
     if ok:
@@ -691,14 +765,58 @@ def continue_on_copy(ctx, env, model, mode, proto, silent):
         ok = len(mine) == len(theirs) and all(
             key_same(a[0], b[0]) and (a[1] is b[1] or repr(a[1]) == repr(b[1]))
             for a, b in zip(mine, theirs))
+    ctx.sig("copy", flavour, mode, proto, min(len(model), 3), silent, ok)
     if not ok:
-        ctx.count("copies_unusable")
-        return None
+        ctx.count("copies_kept_as_side_object")
+        return "side", c, None
     ctx.count("copies_continued")
     ctx.count("copies_continued_" + ("silent" if silent else "recorded"))
-    ctx.sig("copy", flavour, mode, proto, min(len(model), 3), silent)
     cenv = Env(flavour, (), 0, "first", silent=silent, td=c)
-    return cenv, dict(c.items())          # deep copies hold new value objects
+    return "twin", cenv, dict(c.items())          # deep copies hold new value objects
+
+
+def untouched(env, model):
+    """None when env's dict was left alone since its logs were cleared: nothing was
+    delivered to its recorders / observers and it still holds `model`."""
+    if env.raw1 or env.raw2 or any(env.obs_logs):
+        return "notified"
+    if env.silent and env.td.notifiers:
+        return "given-a-notifier"            # nobody listens: this is all one can see
+    if not items_same_ordered(list(env.td.items()), list(model.items())):
+        return "changed"
+    return None
+
+
+def isolation_violation(ctx, mode, who, what, by, env, model, detail):
+    ctx.violation("copy-isolation/%s/%s-%s-by-change-to-%s" % (mode, who, what, by),
+                  "a change to the %s %s the %s (%s of a %s dict): %r; recorder of the "
+                  "untouched dict got raw1=%r raw2=%r observers=%r, it holds %r, expected %r"
+                  % (by, {"given-a-notifier": "put a notifier on"}.get(what, what), who, mode,
+                     env.flavour, detail, env.raw1[:2], env.raw2[:2],
+                     [lg[:2] for lg in env.obs_logs], list(env.td.items()), list(model.items())),
+                  {"flavour": env.flavour, "mode": mode, "detail": detail})
+
+
+def side_mutate(rng, obj, flavour, serial):
+    """An unjudged valid mutation of a side object (a plain dict / detached copy)."""
+    uni = START_UNIVERSE[flavour]
+    k = uni[rng.randrange(len(uni))] if rng is not None else uni[serial % len(uni)]
+    c = rng.randrange(5) if rng is not None else serial % 5
+    what = ("setitem", "update", "pop", "setdefault", "clear")[c]
+    try:
+        if c == 0:
+            obj[k] = V(500 + serial)
+        elif c == 1:
+            obj.update([(k, V(600 + serial))])
+        elif c == 2:
+            obj.pop(k, None)
+        elif c == 3:
+            obj.setdefault(k, V(700 + serial))
+        else:
+            obj.clear()
+    except Exception as e:                       # detached copies owe us nothing
+        what += ":" + type(e).__name__
+    return (what, k)
 
 
 # -- generators -----------------------------------------------------------------
@@ -714,8 +832,32 @@ def validated_universe(flavour):
     return out
 
 
+def start_universe(flavour):
+    """Raw keys that are valid and whose validated forms are pairwise distinct.  For
+    idempotent validators the validated form itself is used."""
+    out, seen = [], []
+    for k in KEYS[flavour]:
+        try:
+            vk = KV[flavour](k)
+        except TraitError:
+            continue
+        if any(vk == o for o in seen):
+            continue
+        seen.append(vk)
+        out.append(k if flavour in NONIDEMPOTENT else vk)
+    return out
+
+
+START_UNIVERSE = {f: start_universe(f) for f in KEYS}
+
+
+def model_of(flavour, state):
+    """The dict a TraitDict built from the raw `state` must hold."""
+    return {KV[flavour](k): VV[flavour](v) for k, v in state}
+
+
 def start_states(flavour, smax):
-    uni = validated_universe(flavour)
+    uni = START_UNIVERSE[flavour]
     for n in range(0, smax + 1):
         for combo in itertools.combinations(uni, n):
             yield [(k, V(i)) for i, k in enumerate(combo)]
@@ -731,7 +873,7 @@ def single_ops(flavour):
         vals.append(BADV)
     if flavour == "coerce":
         vals.append(7)
-    if flavour == "tdo":
+    if flavour in HT:
         vals.append(None)
     for k in keys + [UNHASH]:
         for v in vals:
@@ -781,7 +923,7 @@ def random_value(rng, flavour):
         return BADV
     if flavour == "coerce" and r < 0.4:
         return rng.randrange(64)
-    if flavour == "tdo" and r < 0.15:
+    if flavour in HT and r < 0.15:
         return None
     return V(rng.randrange(10 ** 6))
 
@@ -853,7 +995,7 @@ def run(ctx):
     smax = 3
     # ---- exhaustive single operations ---------------------------------------
     gi = 0
-    for flavour in ("coerce", "tdo", "reject", "none"):
+    for flavour in ("coerce", "tdo", "reject", "none", "strict", "shift", "tdi"):
         ops = list(single_ops(flavour))
         for si, state in enumerate(start_states(flavour, smax)):
             batch = []
@@ -868,22 +1010,39 @@ def run(ctx):
                 for g, op in batch:
                     for n_obs, slot in OBS_CONFIGS[:5]:
                         env = Env(flavour, state, n_obs, slot, ctor_notifier=bool(g % 2))
-                        model = dict(state)
+                        model = model_of(flavour, state)
                         check_one(ctx, env, model, op)
                         ctx.count("exhaustive_cases")
-                    if flavour != "tdo":
-                        # nobody listening: never had a notifier / a fresh copy
+                    if flavour not in HT:
+                        # nobody listening: never had a notifier
                         env = Env(flavour, state, 0, "first", silent=True)
-                        check_one(ctx, env, dict(state), op)
+                        check_one(ctx, env, model_of(flavour, state), op)
                         ctx.count("exhaustive_cases")
                         ctx.count("exhaustive_silent_cases")
-                        mode, proto = COPY_MODES[g % len(COPY_MODES)]
-                        env = Env(flavour, state, 0, "first", ctor_notifier=True)
-                        got = continue_on_copy(ctx, env, dict(state), mode, proto, True)
-                        if got:
-                            check_one(ctx, got[0], got[1], op)
-                            ctx.count("exhaustive_cases")
+                    # a fresh copy next to its (watched) original: the op goes to the
+                    # copy, the original must not hear of it nor change
+                    mode, proto = COPY_MODES[g % len(COPY_MODES)]
+                    n_obs, slot = OBS_CONFIGS[(g // len(COPY_MODES)) % 3]
+                    env = Env(flavour, state, n_obs, slot, ctor_notifier=flavour not in HT)
+                    model = model_of(flavour, state)
+                    got = take_copy(ctx, env, model, mode, proto, True)
+                    if got:
+                        env.clear_logs()
+                        if got[0] == "twin":
+                            check_one(ctx, got[1], got[2], op)
                             ctx.count("exhaustive_silent_cases")
+                        else:
+                            try:
+                                apply_real(got[1], op)
+                            except Exception:
+                                pass
+                        ctx.count("exhaustive_cases")
+                        ctx.ev()
+                        ctx.count("isolation_checks")
+                        ctx.count("isolation_checks_copy_mutated")
+                        what = untouched(env, model)
+                        if what:
+                            isolation_violation(ctx, mode, "original", what, "copy", env, model, op)
                 if batch:
                     ctx.sample({"flavour": flavour, "start": state, "op": batch[len(batch) // 2][1]})
             finally:
@@ -900,44 +1059,95 @@ def run(ctx):
             r = rng.random()
             stratum = "plain" if r < 0.6 else "collide" if r < 0.72 else "order"
             if stratum == "collide":
-                flavour = rng.choice(["coerce", "tdo"])
+                flavour = rng.choice(["coerce", "tdo", "shift"])
             else:
-                flavour = rng.choice(["reject", "coerce", "tdo", "coerce", "tdo", "none"])
+                flavour = rng.choice(["reject", "coerce", "tdo", "coerce", "tdo", "none",
+                                      "strict", "shift", "tdi", "strict", "shift"])
             if stratum == "order":
                 n_obs, slot = rng.choice([(1, "last"), (2, "mid"), (2, "last")])
             else:
                 n_obs, slot = rng.choice([(0, "first"), (0, "first"), (1, "first"), (2, "first")])
-            uni = validated_universe(flavour)
+            uni = list(START_UNIVERSE[flavour])
             rng.shuffle(uni)
             state = [(k, V(i)) for i, k in enumerate(uni[:rng.randint(0, 4)])]
             # nobody-listening ingredients (bare flavours only: a TraitDictObject
             # always carries its own notifier and its copies are detached)
-            silent = flavour != "tdo" and n_obs == 0 and rng.random() < 0.35
+            silent = flavour not in HT and n_obs == 0 and rng.random() < 0.35
             copy_at, mode, proto, copy_silent = -1, None, None, False
-            if flavour != "tdo" and rng.random() < 0.4:
+            if rng.random() < 0.4:
                 copy_at = rng.randint(0, 14)
-                mode, proto = COPY_MODES[0] if rng.random() < 0.2 else \
-                    COPY_MODES[1] if rng.random() < 0.25 else rng.choice(COPY_MODES[2:])
+                r = rng.random()
+                mode, proto = COPY_MODES[0] if r < 0.3 else COPY_MODES[1] if r < 0.5 else \
+                    COPY_MODES[2] if r < 0.6 else rng.choice(COPY_MODES[3:])
                 copy_silent = rng.random() < 0.7
             if silent:
                 env = Env(flavour, state, 0, "first", silent=True)
                 ctx.count("histories_started_silent")
             else:
                 env = Env(flavour, state, n_obs, slot, ctor_notifier=rng.random() < 0.5)
-            model = dict(state)
+            model = model_of(flavour, state)
             ops = []
             ctx.count("histories_" + stratum)
+            twin = side = None          # (Env, model) of a judged copy / an unjudged side dict
+            side_snap = None
             for step in range(20):
                 if step == copy_at:
-                    got = continue_on_copy(ctx, env, model, mode, proto, copy_silent)
-                    ops.append(("<continue-on-copy>", mode, proto, copy_silent, got is not None))
-                    if got is None:
-                        break
-                    env, model = got
-                op = random_op(rng, flavour, model, stratum == "collide")
-                ops.append(op)
-                ctx.count("history_ops")
-                if check_one(ctx, env, model, op):
+                    got = take_copy(ctx, env, model, mode, proto, copy_silent)
+                    ops.append(("<copy>", mode, proto, copy_silent, got and got[0]))
+                    if got and got[0] == "twin":
+                        twin = (got[1], got[2])
+                    elif got:
+                        side, side_snap = got[1], list(got[1].items())
+                stop = False
+                if twin is not None:
+                    # both objects stay alive; most operations go to the copy
+                    on_copy = rng.random() < 0.7
+                    (tenv, tmodel), (oenv, omodel) = (twin, (env, model)) if on_copy \
+                        else ((env, model), twin)
+                    oenv.clear_logs()
+                    op = random_op(rng, flavour, tmodel, stratum == "collide")
+                    ops.append(("copy" if on_copy else "original",) + op)
+                    ctx.count("history_ops")
+                    stop = bool(check_one(ctx, tenv, tmodel, op))
+                    if not stop:
+                        ctx.ev()
+                        ctx.count("isolation_checks")
+                        ctx.count("isolation_checks_%s_mutated" % ("copy" if on_copy else "original"))
+                        what = untouched(oenv, omodel)
+                        if what:
+                            isolation_violation(ctx, mode, "original" if on_copy else "copy", what,
+                                                "copy" if on_copy else "original", oenv, omodel, op)
+                            stop = True
+                elif side is not None and rng.random() < 0.5:
+                    env.clear_logs()
+                    did = side_mutate(rng, side, flavour, step)
+                    ops.append(("side",) + did)
+                    side_snap = list(side.items())
+                    ctx.ev()
+                    ctx.count("side_mutations")
+                    ctx.count("isolation_checks")
+                    ctx.count("isolation_checks_copy_mutated")
+                    what = untouched(env, model)
+                    if what:
+                        isolation_violation(ctx, mode, "original", what, "copy", env, model, did)
+                        stop = True
+                else:
+                    op = random_op(rng, flavour, model, stratum == "collide")
+                    ops.append(op)
+                    ctx.count("history_ops")
+                    stop = bool(check_one(ctx, env, model, op))
+                    if side is not None and not stop:
+                        ctx.ev()
+                        ctx.count("isolation_checks")
+                        ctx.count("isolation_checks_original_mutated")
+                        if not items_same_ordered(list(side.items()), side_snap):
+                            ctx.violation("copy-isolation/%s/copy-changed-by-change-to-original" % mode,
+                                          "a change to the original changed its %s copy (%s dict): "
+                                          "op=%r copy=%r expected=%r"
+                                          % (mode, flavour, op, list(side.items()), side_snap),
+                                          {"flavour": flavour, "mode": mode, "op": op})
+                            stop = True
+                if stop:
                     break
             if h < 3 * ctx.nshards:
                 ctx.sample({"flavour": flavour, "stratum": stratum, "observers": n_obs,
